@@ -32,8 +32,27 @@ class Case:
         return Case(phens, j['cache'], j['ops'], j.get('tag', ''))
 
 
-def ev_ops(stream, kind='s', t0=0):
-    return [f'ev e{t0 + i} {t0 + i} {kind} {d}' for i, d in enumerate(stream)]
+def ev_ops(stream, kind='s', t0=0, clock='arrival'):
+    """`clock`: the timestamps the events carry -- 'arrival' (the position in the stream), 'skewed' (sources with clocks out
+    of step: not monotone in arrival order, with ties) or 'same' (all equal).  Identifiers stay unique."""
+    def ts(i):
+        return t0 + i if clock == 'arrival' else 50 if clock == 'same' else 100 + (i * 7919 + 3 * (i % 2)) % 11
+    return [f'ev e{t0 + i} {ts(i)} {kind} {d}' for i, d in enumerate(stream)]
+
+
+def history_extremes(rd):
+    """`first()` / `last()` of every history the decider holds: the events with the oldest / the most recent timestamp
+    (docs: BoboHistory).  Returns a description of the first history that says otherwise, or None."""
+    for r in rd.dec.all_runs():
+        h = r.history()
+        evs = h.all_events()
+        if evs:
+            lo, hi = min(e.timestamp for e in evs), max(e.timestamp for e in evs)
+            f, l = h.first(), h.last()
+            if f is None or l is None or f.timestamp != lo or l.timestamp != hi:
+                return (f"run {r.run_id}: timestamps {[e.timestamp for e in evs]}, first() is "
+                        f"{None if f is None else f.timestamp}, last() is {None if l is None else l.timestamp}")
+    return None
 
 
 def run_cases(ctx: Ctx, cases: Iterable[Case], res: Result,
@@ -57,12 +76,18 @@ def run_cases(ctx: Ctx, cases: Iterable[Case], res: Result,
         for k, op in enumerate(case.ops):
             o = rd.do(op)
             outs.append(o)
+            if bad is None and op.startswith('ev '):
+                hx = history_extremes(rd)
+                if hx is not None:
+                    res.violations.append(Violation('history-first-last', f"after {op!r} (step {k}) {hx}", {**case.to_json(), 'failing_step': k}))
+                    bad = (k, o, o)
+                    rdec = None
             if rdec is not None and op.startswith('ev ') and bad is None:
                 w = op.split()
                 exp = rdec.line((w[1], int(w[2]), w[3], int(w[4])))
                 if canon(exp) != canon(o):
                     bad = (k, exp, o)
-        if bad is not None:
+        if bad is not None and bad[1] is not bad[2]:
             k, exp, o = bad
             res.violations.append(Violation(
                 sig, f"after {case.ops[k]!r} (step {k}) the decider reports {o!r}; the documented semantics give {exp!r}",
